@@ -243,9 +243,9 @@ Proof.
 Qed.
 
 (* ---- levels whose two paths differ ---- *)
-Definition shifted_shape (e : entry) (q : path) (xs ys : list value) (o : opcode) (k : nat) (a b : atom) : Prop :=
+Definition shifted_shape (rc : list path) (e : entry) (q : path) (xs ys : list value) (o : opcode) (k : nat) (a b : atom) : Prop :=
   at_level t1 t2 q xs ys /\ leafb c xs ys = true /\
-  (In q (snd (run t1 t2)) \/ length (by_opcodes udiff skip (ops q xs ys) xs ys q q) <= 1) /\
+  (In q rc \/ length (by_opcodes udiff skip (ops q xs ys) xs ys q q) <= 1) /\
   In o (ops q xs ys) /\ otag o = OReplace /\ oi1 o <> oj1 o /\
   nth_error (slice xs (oi1 o) (oi2 o)) k = Some (VAtom a) /\
   nth_error (slice ys (oj1 o) (oj2 o)) k = Some (VAtom b) /\
@@ -260,7 +260,7 @@ Proof.
 Qed.
 
 Theorem shifted_source e : In e (fst (run t1 t2)) -> (ekind e = KValue \/ ekind e = KType) -> ep1 e <> ep2 e ->
-  exists q xs ys o k a b, shifted_shape e q xs ys o k a b.
+  exists q xs ys o k a b, shifted_shape (snd (run t1 t2)) e q xs ys o k a b.
 Proof.
   rewrite run_fst. intros He K N.
   apply mutual_In_cases in He as [He|(r & a & Hr & Ha & Kr & Ka & P & ->)].
@@ -308,9 +308,9 @@ Proof.
 Qed.
 
 (* ---- K18: the verbose_level=1 text view ---- *)
-Definition k18_shape (e : entry) : Prop :=
+Definition k18_shape (rc : list path) (e : entry) : Prop :=
   (ekind e = KValue \/ ekind e = KType) /\
-  exists q xs ys o k a b, shifted_shape e q xs ys o k a b /\
+  exists q xs ys o k a b, shifted_shape rc e q xs ys o k a b /\
     nth_error ys (oi1 o + k) <> Some (VAtom b).
 
 (* at verbose_level=1 a changed value / type is faithful iff t2 holds the reported new value at the T1 path *)
@@ -331,7 +331,7 @@ Qed.
 
 Theorem k18_exact e te :
   In e (fst (run t1 t2)) -> path_ok (ep1 e) = true -> In te (text_of 1 e) ->
-  (~ tfaithful false t1 t2 te <-> k18_shape e).
+  (~ tfaithful false t1 t2 te <-> k18_shape (snd (run t1 t2)) e).
 Proof.
   intros He O1 Hte.
   destruct (run_diff_faithful hatom udiff ops skip excl c t1 t2 Hthr W1 W2 e He) as [F _].
@@ -365,7 +365,7 @@ Qed.
 (* every entry of the verbose_level=1 result is faithful, or is a K18 entry *)
 Theorem text_v1_except_k18 e te :
   In e (fst (run t1 t2)) -> path_ok (ep1 e) = true -> In te (text_of 1 e) ->
-  tfaithful false t1 t2 te \/ k18_shape e.
+  tfaithful false t1 t2 te \/ k18_shape (snd (run t1 t2)) e.
 Proof.
   intros He O1 Hte.
   destruct (run_diff_faithful hatom udiff ops skip excl c t1 t2 Hthr W1 W2 e He) as [F _].
@@ -415,8 +415,8 @@ Definition k18_entry : entry :=
 
 Example k18_shape_witness :
   In k18_entry (fst k18_run) /\
-  k18_shape (fun _ => []) (fun _ _ => []) k18_ops (fun _ => false) (fun _ => false) (mkCfg false 33 100 true)
-            k18_t1 k18_t2 k18_entry.
+  k18_shape (fun _ _ => []) k18_ops (fun _ => false) (mkCfg false 33 100 true)
+            k18_t1 k18_t2 (snd k18_run) k18_entry.
 Proof.
   split; [vm_compute; tauto|]. split; [left; reflexivity|].
   exists [], (map (fun ch => VAtom (AStr [ch])) [97; 98; 99]%N), (map (fun ch => VAtom (AStr [ch])) [120; 97; 113; 99]%N),
